@@ -11,6 +11,7 @@ import sys
 
 here = os.path.dirname(os.path.abspath(__file__))
 repo = os.environ.get("EXO_REPO", "/repo")
+os.makedirs(os.path.join(here, "_build"), exist_ok=True)   # ExtractFp.v / ExtractTrav.v write their OCaml there
 rc = 0
 for tr, out in (("py2coq_partraverse.py", "Gen_ParTraverse.v"), ("py2coq_effpreds.py", "Gen_EffPreds.v")):
     trp = os.path.join(here, "..", "..", "translator", tr)
